@@ -200,7 +200,11 @@ func (g *jsonGen) mutate(doc string) string {
 	}
 	b := []byte(doc)
 	i := g.rng.Intn(len(b))
-	switch g.rng.Intn(7) {
+	switch g.rng.Intn(10) {
+	case 7, 8: // a byte that is blank for HTML / XML but not for JSON, before the opening bracket
+		return []string{"\f", " \f\n", "\f ", "\x1b", "\n\f"}[g.rng.Intn(5)] + doc
+	case 9: // ... or behind the closing one
+		return doc + []string{"\f", " \f", "\x1b\n"}[g.rng.Intn(3)]
 	case 6: // insert a run of control bytes that are not JSON whitespace (form feed, escape)
 		run := make([]byte, 8+g.rng.Intn(12))
 		for k := range run {
